@@ -1,4 +1,5 @@
 import PonyVerif.Lemmas.RowLock
+import PonyVerif.Gen.RowLockSrc
 /-
   C35 — locked rows and serializable sessions cannot be overwritten concurrently.
 
@@ -254,6 +255,40 @@ theorem C35_same_process_never_busy (n : Nat) (σ : St) (s : Sid) (hI : Inv n σ
         show (if _ then _ else _) ≠ _
         rw [if_neg (by simp [hno hl])]
         intro h; cases h
+
+/-- **Splitting an operation at its lock acquisition** (what the call-granularity comparison of the engine relies on): once
+    a session has taken the lock and begun its transaction (`begin`), a locking load or an UPDATE behaves exactly as if
+    the whole operation - lock, BEGIN IMMEDIATE, statement - ran in one step from the state before; other sessions'
+    steps in between are covered by `C35_locked_row_step` / `C35_mutex`. -/
+theorem C35_begin_split (n : Nat) (σ σ' : St) (s : Sid) (a : Act) (hI : Inv n σ) (hs : s < n)
+    (hact : (σ.sess s).status = .active) (hE : ensureTxn n σ s = .ok σ')
+    (ha : (∃ o, a = .lockRead o) ∨ (∃ o v, a = .update o v ∧ (σ.sess s).seen o ≠ none)) : step n σ' s a = step n σ s a := by
+  have hb := ensureTxn_spec hI hs hact
+  rw [hE] at hb
+  obtain ⟨_, _, hss, _⟩ := hb
+  have hin' : (σ'.sess s).inTxn = true := by rw [hss]
+  have hact' : (σ'.sess s).status = .active := by rw [hss]; exact hact
+  have hE' : ensureTxn n σ' s = .ok σ' := by unfold ensureTxn; dsimp only; rw [if_pos hin']
+  rcases ha with ⟨o, rfl⟩ | ⟨o, v, rfl, hne⟩
+  · unfold step
+    dsimp only
+    rw [if_neg (by simpa using hact'), if_neg (by simpa using hact), hE, hE']
+  · have hseen : (σ'.sess s).seen o = (σ.sess s).seen o := by rw [hss]
+    unfold step
+    dsimp only
+    rw [if_neg (by simpa using hact'), if_neg (by simpa using hact), hseen]
+    cases hso : (σ.sess s).seen o with
+    | none => exact absurd hso hne
+    | some r => dsimp only; rw [hE, hE']
+
+/-- **The mirrored statements are still in the source** (bridge, rebuilt on every run against `Gen/RowLockSrc.lean`, which
+    harness/gen_rowlock.py derives from pony/orm/core.py, dbproviders/sqlite.py and sqlbuilding.py): the thirteen statements
+    listed in `Src` - commit clears `for_update` and sets `immediate`, locking loads set `immediate` before they query, the
+    optimistic WHERE is built unless the object is locked or the session carries no checks, the session flags, the lock is
+    taken before BEGIN IMMEDIATE and released in the `finally` of commit / rollback / drop, the clause texts - are present in
+    the form the model mirrors.  A change of any of them breaks this theorem; the step-by-step correspondence of the engine
+    then shows whether behaviour changed. -/
+theorem C35_source_shape : PonyVerif.Gen.RowLockSrc.src = Src.expected := by decide
 
 /-! ### the clause sent to servers that have row locks -/
 
